@@ -577,6 +577,16 @@ const BENIGN_S: &str = "http://k.example/s";
 const BENIGN_P: &str = "http://k.example/p";
 const BENIGN_O: &str = "http://k.example/o";
 
+/// `PanicSite::sig` with the source path made relative to the repository root wherever the tree is
+/// checked out (scratch worktrees of tools/mutant_run.sh live under /tmp/.../repo/).
+fn panic_sig(site: &PanicSite) -> String {
+    let mut s = site.clone();
+    if let Some(i) = s.file.rfind("/repo/") {
+        s.file = s.file[i + 6..].to_string();
+    }
+    s.sig()
+}
+
 struct Acc {
     out: Vec<(String, String)>,
     trips: u64,
@@ -633,7 +643,7 @@ fn attribute_literal(acc: &mut Acc, fmt: Fmt, ctx: Option<(&RtTerm, &str, &Optio
         if !t.passed() {
             any = true;
             match &t {
-                Trip::Panic { site, .. } => acc.push(site.sig(), format!("[{}] literal reduced to its `{}` feature: {}", fmt.tag(), name, describe(fmt, &ds, &t))),
+                Trip::Panic { site, .. } => acc.push(panic_sig(site), format!("[{}] literal reduced to its `{}` feature: {}", fmt.tag(), name, describe(fmt, &ds, &t))),
                 _ => acc.push(format!("c14.{}.literal_{}", fmt.tag(), name), describe(fmt, &ds, &t)),
             }
             continue;
@@ -644,7 +654,7 @@ fn attribute_literal(acc: &mut Acc, fmt: Fmt, ctx: Option<(&RtTerm, &str, &Optio
             if !t.passed() {
                 any = true;
                 match &t {
-                    Trip::Panic { site, .. } => acc.push(site.sig(), format!("[{}] literal reduced to its `{}` feature: {}", fmt.tag(), name, describe(fmt, &ds, &t))),
+                    Trip::Panic { site, .. } => acc.push(panic_sig(site), format!("[{}] literal reduced to its `{}` feature: {}", fmt.tag(), name, describe(fmt, &ds, &t))),
                     _ => acc.push(format!("c14.{}.with_subject_{}.literal_{}", fmt.tag(), s.kind(), name), describe(fmt, &ds, &t)),
                 }
             }
@@ -674,7 +684,7 @@ fn attribute_quad(acc: &mut Acc, fmt: Fmt, q: &RtQuad, whole: &Trip) {
         if !t.passed() {
             blamed = true;
             match &t {
-                Trip::Panic { site, .. } => acc.push(site.sig(), format!("[{}] {}", fmt.tag(), describe(fmt, &ds, &t))),
+                Trip::Panic { site, .. } => acc.push(panic_sig(site), format!("[{}] {}", fmt.tag(), describe(fmt, &ds, &t))),
                 _ => acc.push(format!("c14.{}.subject_{}", fmt.tag(), q.s.kind()), describe(fmt, &ds, &t)),
             }
         }
@@ -686,7 +696,7 @@ fn attribute_quad(acc: &mut Acc, fmt: Fmt, q: &RtQuad, whole: &Trip) {
         if !t.passed() {
             blamed = true;
             match &t {
-                Trip::Panic { site, .. } => acc.push(site.sig(), format!("[{}] {}", fmt.tag(), describe(fmt, &ds, &t))),
+                Trip::Panic { site, .. } => acc.push(panic_sig(site), format!("[{}] {}", fmt.tag(), describe(fmt, &ds, &t))),
                 _ => acc.push(format!("c14.{}.predicate_iri_{}", fmt.tag(), iri_scheme(&q.p)), describe(fmt, &ds, &t)),
             }
         }
@@ -700,7 +710,7 @@ fn attribute_quad(acc: &mut Acc, fmt: Fmt, q: &RtQuad, whole: &Trip) {
             match &q.o {
                 RtTerm::Lit(l) => attribute_literal(acc, fmt, None, l, &t, &ds),
                 other => match &t {
-                    Trip::Panic { site, .. } => acc.push(site.sig(), format!("[{}] {}", fmt.tag(), describe(fmt, &ds, &t))),
+                    Trip::Panic { site, .. } => acc.push(panic_sig(site), format!("[{}] {}", fmt.tag(), describe(fmt, &ds, &t))),
                     _ => acc.push(format!("c14.{}.object_{}", fmt.tag(), other.kind()), describe(fmt, &ds, &t)),
                 },
             }
@@ -713,7 +723,7 @@ fn attribute_quad(acc: &mut Acc, fmt: Fmt, q: &RtQuad, whole: &Trip) {
         if !t.passed() {
             blamed = true;
             match &t {
-                Trip::Panic { site, .. } => acc.push(site.sig(), format!("[{}] {}", fmt.tag(), describe(fmt, &ds, &t))),
+                Trip::Panic { site, .. } => acc.push(panic_sig(site), format!("[{}] {}", fmt.tag(), describe(fmt, &ds, &t))),
                 _ => acc.push(format!("c14.{}.graph_iri_{}", fmt.tag(), iri_scheme(g)), describe(fmt, &ds, &t)),
             }
         }
@@ -721,7 +731,7 @@ fn attribute_quad(acc: &mut Acc, fmt: Fmt, q: &RtQuad, whole: &Trip) {
     if !blamed {
         // no term fails next to benign companions: the combination does
         match (&q.o, whole) {
-            (_, Trip::Panic { site, .. }) => acc.push(site.sig(), format!("[{}] {}", fmt.tag(), describe(fmt, &whole_ds, whole))),
+            (_, Trip::Panic { site, .. }) => acc.push(panic_sig(site), format!("[{}] {}", fmt.tag(), describe(fmt, &whole_ds, whole))),
             (RtTerm::Lit(l), _) => attribute_literal(acc, fmt, Some((&q.s, &q.p, &q.g)), l, whole, &whole_ds),
             _ => acc.push(format!("c14.{}.quad_combination.{}.{}", fmt.tag(), q.s.kind(), q.o.kind()), describe(fmt, &whole_ds, whole)),
         }
@@ -732,7 +742,7 @@ fn attribute_quad(acc: &mut Acc, fmt: Fmt, q: &RtQuad, whole: &Trip) {
 fn attribute_interaction(acc: &mut Acc, fmt: Fmt, clean: &[RtQuad], whole: &Trip) {
     let whole_ds = RtDataset { quads: clean.to_vec() };
     if let Trip::Panic { site, .. } = whole {
-        acc.push(site.sig(), format!("[{}] {}", fmt.tag(), describe(fmt, &whole_ds, whole)));
+        acc.push(panic_sig(site), format!("[{}] {}", fmt.tag(), describe(fmt, &whole_ds, whole)));
         return;
     }
     let mut by_subject: BTreeMap<(Option<String>, String), Vec<RtQuad>> = BTreeMap::new();
@@ -824,7 +834,7 @@ fn attribute(acc: &mut Acc, fmt: Fmt, ds: &RtDataset, whole: &Trip) {
         // nothing in scope fails on its own: quads outside the format's scope (named graphs for
         // N-Triples/Turtle) interfere, or the behaviour is not reproducible
         match whole {
-            Trip::Panic { site, .. } => acc.push(site.sig(), format!("[{}] {}", fmt.tag(), describe(fmt, ds, whole))),
+            Trip::Panic { site, .. } => acc.push(panic_sig(site), format!("[{}] {}", fmt.tag(), describe(fmt, ds, whole))),
             _ => {
                 let oos = ds.quads.iter().any(|q| !fmt.in_scope(q));
                 let sig = if oos { format!("c14.{}.out_of_scope_quads_interfere", fmt.tag()) } else { format!("c14.{}.unattributed", fmt.tag()) };
